@@ -98,6 +98,9 @@ func onedWriter_renderResult(code []bool, width, height, sidesMargin int) (*gozx
 	inputWidth := len(code)
 	// Add quiet zone on both sides.
 	fullWidth := inputWidth + sidesMargin
+	if fullWidth < inputWidth {
+		return nil, gozxing.NewWriterException("IllegalArgumentException: margin too large: %v", sidesMargin)
+	}
 	outputWidth := max(width, fullWidth)
 	outputHeight := max(1, height)
 
